@@ -12,6 +12,8 @@
 
 #include "../num_traits/rep_of.h"
 #include "../num_traits/tag_of.h"
+#include "../numbers/set_signedness.h"
+#include "../numbers/signedness.h"
 #include "../scaled/power.h"
 
 #include <algorithm>
@@ -53,7 +55,11 @@ namespace cnl {
         constexpr int rep_exponent = -fractional_digits;
         using scale = power<rep_exponent>;
 
-        using rep_type = set_digits_t<natural_result, result_digits>;
+        // the quotient is negative whenever exactly one operand is; the built-in result of mixed-signedness
+        // division is unsigned, which cannot hold it
+        using signed_natural_result = numbers::set_signedness_t<
+                natural_result, numbers::signedness_v<Dividend> || numbers::signedness_v<Divisor>>;
+        using rep_type = set_digits_t<signed_natural_result, result_digits>;
         using rep = decltype(_impl::not_scaled_integer(std::declval<rep_type>()));
 
         return _impl::from_rep<scaled_integer<rep, scale>>(
